@@ -28,14 +28,12 @@ VARIABLE judged          \* 0 while the IR machine runs, 1 once the execution ha
 pvars == <<chunk, i, av, ph, stack, mem, calls, status, why, ret, steps, obs0, gaddr, judged>>
 
 PyInit == Init /\ judged = 0
-Classify(st) == /\ Finished /\ judged = 0 /\ status = st
-                /\ judged' = 1
-                /\ UNCHANGED vars
-DoneDefined    == Classify("ok")
-DoneUndefined  == Classify("undefined")
-DoneOutOfModel == Classify("outofmodel")
-DoneFuel       == Classify("fuel")
-DoneStuck      == Classify("stuck")
+\* (written out one by one: TLC reports coverage per action definition, which is how the harness counts them)
+DoneDefined    == Finished /\ judged = 0 /\ status = "ok" /\ judged' = 1 /\ UNCHANGED vars
+DoneUndefined  == Finished /\ judged = 0 /\ status = "undefined" /\ judged' = 1 /\ UNCHANGED vars
+DoneOutOfModel == Finished /\ judged = 0 /\ status = "outofmodel" /\ judged' = 1 /\ UNCHANGED vars
+DoneFuel       == Finished /\ judged = 0 /\ status = "fuel" /\ judged' = 1 /\ UNCHANGED vars
+DoneStuck      == Finished /\ judged = 0 /\ status = "stuck" /\ judged' = 1 /\ UNCHANGED vars
 PyNext == \/ (PickChunk /\ UNCHANGED judged) \/ (PickCase /\ UNCHANGED judged)
           \/ (Step /\ UNCHANGED judged) \/ (Exhaust /\ UNCHANGED judged)
           \/ DoneDefined \/ DoneUndefined \/ DoneOutOfModel \/ DoneFuel \/ DoneStuck
